@@ -3,6 +3,10 @@
 Decides: the set of Database fields that statement execution can write is covered by the fields
 BEGIN captures (by clone) and ROLLBACK restores; rollback assigns every captured field on its
 success path; COMMIT restores nothing.  Does NOT decide that Clone of Table/Catalog is deep.
+Database.operations (index manager, spatial indexes) is captured and restored through methods rather than by clone: one
+level down, every field of Operations that statement execution writes must be read under begin_transaction and written
+under rollback_transaction (the index manager: its definitions are captured and the indexes rebuilt over the restored
+tables; the spatial indexes: cloned and assigned back).
 (own) outside the COMMIT/ROLLBACK executors a function ends (rolls back or commits) only a transaction that its
 own begin_transaction opened on the same path."""
 from ..engine.callgraph import CallGraph
@@ -31,10 +35,11 @@ SESSION_ONLY_WRITERS = {
 }
 
 
-def db_field_uses(fn, mutable_only):
-    """{field: line} Database fields borrowed (mutably) or assigned in fn"""
+def db_field_uses(fn, mutable_only, ty=None):
+    """{field: line} Database fields (or fields of struct `ty`) borrowed (mutably) or assigned in fn"""
     out = {}
-    dbl = {i for i, t in enumerate(fn.locals) if t.replace('&mut ', '').replace('&', '') == DB}
+    ty = ty or DB
+    dbl = {i for i, t in enumerate(fn.locals) if t.replace('&mut ', '').replace('&', '') == ty}
     if not dbl:
         return out
 
@@ -161,6 +166,33 @@ def run(ctx):
     for fl in fields:
         if fl not in written and fl not in snap and vis[fl].startswith('Public'):
             pass
+
+    # ---------------------------------------------------------------- one level down: the parts of Database.operations
+    OPS = 'vibesql_storage::database::operations::Operations'
+    ctx.rule('C13.snapshot.operations', 'Database.operations is captured and restored through methods, not by clone: every field of Operations that a function '
+             'reachable from statement execution writes is read by what begin_transaction reaches and written by what rollback_transaction reaches')
+    ops_fields = [f['name'] for f in prog.adt(OPS)['variants'][0]['fields']]
+    ctx.require(len(ops_fields) >= 2, f'Operations fields changed: {ops_fields}')
+
+    def ops_uses(paths, mutable_only):
+        out = {}
+        for p_ in paths:
+            f_ = prog.fns.get(p_)
+            if f_ is None:
+                continue
+            for k, line in db_field_uses(f_, mutable_only, OPS).items():
+                out.setdefault(k, []).append((f_.nice, f'{f_.file}:{line}'))
+        return out
+    cap = ops_uses(cg.reach([begin.path]), mutable_only=False)
+    res = ops_uses(cg.reach([rollback.path]), mutable_only=True)
+    wr = ops_uses([p_ for p_ in reach if prog.fns[p_].nice not in tx_ctl], mutable_only=True)
+    for fl in ops_fields:
+        ws = [w for w in wr.get(fl, []) if not w[0].endswith('Operations::restore')]
+        ok_ = fl in cap and fl in res
+        ctx.instance(f'field/operations.{fl}', {'field': 'operations.' + fl, 'writers': len(ws), 'read_under_begin': fl in cap, 'written_under_rollback': fl in res})
+        if ws and not ok_:
+            ctx.finding(f'snapshot/operations.{fl}', f'Database.operations.{fl} is written by {len(ws)} functions reachable from statement execution (e.g. {ws[0][0]}) '
+                        'but BEGIN does not read it and/or ROLLBACK does not write it: what a rolled-back transaction did to it stays', ws[0][1], {'writers': ws[:20]})
 
     # private fields: only vibesql-storage can touch them (closed world for the writer set)
     for fl in ('operations', 'metadata', 'lifecycle'):
